@@ -114,12 +114,15 @@ def branch_order(eng, res, rule="R-BRANCH-ORDER"):
     res.ob(rule, tok, "push-and-pop", "both push and pop exist", tok.node, kinds == {"append", "pop"}, f"{sorted(kinds)}")
     # atoms update the top
     tops = [n for n in own_nodes(tok.node) if isinstance(n, ast.Assign) and src(n.targets[0]) == f"{stack}[-1]"]
-    ok = len(tops) == 1 and src(tops[0].value) == "len(atoms) - 1"
+    from ..pat import unify
+
+    env = unify("len($L) - 1", src(tops[0].value)) if len(tops) == 1 else None
+    ok = env is not None
     if ok:
         g = [src(t) for t, pol in cfg.guard_exprs(cfg.node_of(tops[0])) if pol]
         ok = any(s.startswith("isinstance(") and "Atom" in s for s in g)
         blk = getattr(tops[0], "_parent")
-        ok = ok and any(isinstance(s, ast.Expr) and isinstance(s.value, ast.Call) and callee_name(s.value) == "append" and src(s.value.func.value) == "atoms" for s in blk.body[: blk.body.index(tops[0])])
+        ok = ok and any(isinstance(s, ast.Expr) and isinstance(s.value, ast.Call) and callee_name(s.value) == "append" and src(s.value.func.value) == env["L"] for s in blk.body[: blk.body.index(tops[0])])
     res.ob(rule, tok, "atom-sets-top", "each atom met becomes the binding atom of the current branch level (top = index of the latest atom)", tops[0] if tops else tok.node, ok)
     # text before the descriptor is processed before binding, with the same stack
     hcalls = [c for c in calls(tok) if any(h in eng.repo_callees(tok, c) for h in helpers)]
@@ -321,8 +324,14 @@ def descr_num(eng, res, rule="R-DESCR-NUM"):
     bc = calls(tok, "BondDescriptor")
     if len(bc) == 1:
         a = bc[0].args[1] if len(bc[0].args) > 1 else None
+        from ..pat import unify
+
         t = src(a) if a is not None else None
-        ok = t in ("len(bond_descriptors) + bond_id_offset", "bond_id_offset + len(bond_descriptors)")
+        off = tok.params[2]
+        env = (unify(f"len($L) + {off}", t) or unify(f"{off} + len($L)", t)) if t else None
+        # L is the list that becomes the token's descriptor list
+        st = [n for n in own_nodes(tok.node) if isinstance(n, ast.Assign) and src(n.targets[0]) == "self.bond_descriptors"]
+        ok = env is not None and len(st) == 1 and src(st[0].value) == env["L"]
         res.ob(rule, tok, "token-offset", "a descriptor's number = descriptors of the object before this token + its position in the token", bc[0], ok, f"2nd argument: {t}")
     st = eng.prog.func("stochastic.Stochastic.__init__")
     res.unit(st)
